@@ -294,10 +294,22 @@ func TestC04(t *testing.T) {
 		case "in":
 			expr = lang.Binary{Op: "in", L: lang.Lit{V: lang.Str("a")}, R: ref(f1)}
 		}
-		if gen.Uniform(rt, "shadow", 8) == 0 {
+		var before []lang.Stmt
+		switch gen.Uniform(rt, "shadow", 12) {
+		case 0, 1:
 			c.Vars[f1] = gen.Scalar(rt, "shadowval", lang.KInt, lang.KString)
+		case 2:
+			// a variable that holds null is a variable all the same
+			c.Vars[f1] = lang.Null()
+			col.Class("member-hidden-by-a-null-variable:host")
+		case 3:
+			// ... also when the script itself made it so ("normalise in place")
+			before = append(before, lang.Assign{N: f1, X: rapid.SampledFrom([]lang.Expr{
+				lang.Call{Fn: "int", Args: []lang.Expr{lang.Lit{V: lang.Str("n/a")}}}, lang.Name{N: "NoSuchName"},
+				lang.Call{Fn: "float", Args: []lang.Expr{lang.Lit{V: lang.Str("")}}}, lang.Index{X: lang.ArrayLit{}, I: lang.Lit{V: lang.Int(3)}}}).Draw(rt, "nullsource")})
+			col.Class("member-hidden-by-a-null-variable:script")
 		}
-		prog := &lang.Program{Stmts: []lang.Stmt{lang.Return{X: expr}}}
+		prog := &lang.Program{Stmts: append(before, lang.Return{X: expr})}
 		c.Script = lang.ProgramText(prog)
 		reads := false
 		for i := 0; i < nobj; i++ {
